@@ -203,4 +203,92 @@ pub(crate) mod __verif_k {
         std::mem::forget(gc);
         std::mem::forget(other);
     }
+
+    // ------------------------------------------------------------------ small steps (the ones CBMC decides: measured)
+    /// every heap constructor registers the new object with the collector it is given: exactly one entry, that object
+    #[kani::proof]
+    #[kani::unwind(5)]
+    fn c03_constructors_register() {
+        let mut gc = GC::new();
+        let fl = f(&mut gc, kani::any());
+        assert!(gc.objects.len() == 1 && std::ptr::eq(gc.objects[0].as_ptr(), fl.as_ptr()));
+        let st = Object::string("ab", &mut gc);
+        assert!(gc.objects.len() == 2 && std::ptr::eq(gc.objects[1].as_ptr(), st.as_ptr()));
+        let ar = Object::array(vec![fl, Object::int(1)], &mut gc);
+        assert!(gc.objects.len() == 3 && std::ptr::eq(gc.objects[2].as_ptr(), ar.as_ptr()));
+        assert!(!std::ptr::eq(fl.as_ptr(), st.as_ptr()) && !std::ptr::eq(st.as_ptr(), ar.as_ptr()));
+        kani::cover!(true);
+        std::mem::forget(gc);
+    }
+
+    /// immediates are never adopted, heap values are, once
+    #[kani::proof]
+    #[kani::unwind(5)]
+    fn c04_maybe_trace_only_heap() {
+        let mut gc = GC::new();
+        gc.maybe_trace(Object::int(kani::any::<i32>() as isize));
+        gc.maybe_trace(Object::null());
+        gc.maybe_trace(Object::bool(kani::any()));
+        gc.maybe_trace(Object::function(kani::any::<u16>() as u32, kani::any()));
+        assert!(gc.objects.len() == 0);
+        let mut other = GC::new();
+        let fl = f(&mut other, kani::any());
+        gc.maybe_trace(fl);
+        assert!(gc.objects.len() == 1 && std::ptr::eq(gc.objects[0].as_ptr(), fl.as_ptr()));
+        kani::cover!(true);
+        std::mem::forget(gc);
+        std::mem::forget(other);
+    }
+
+    /// untrace takes exactly the given object out (the hand-over of a flat result); an unknown object changes nothing
+    #[kani::proof]
+    #[kani::unwind(5)]
+    fn c04_untrace_flat() {
+        let mut gc = GC::new();
+        let a = f(&mut gc, kani::any());
+        let b = f(&mut gc, kani::any());
+        let mut other = GC::new();
+        let foreign = f(&mut other, 1);
+        gc.untrace(foreign);
+        assert!(gc.objects.len() == 2);
+        gc.untrace(a);
+        assert!(gc.objects.len() == 1 && std::ptr::eq(gc.objects[0].as_ptr(), b.as_ptr()));
+        gc.untrace(a);
+        assert!(gc.objects.len() == 1);
+        kani::cover!(true);
+        std::mem::forget(gc);
+        std::mem::forget(other);
+    }
+
+    /// a rooted float survives a collection untouched (one object, one root among immediates)
+    #[kani::proof]
+    #[kani::unwind(5)]
+    fn c03_rooted_float_survives() {
+        let mut gc = GC::new();
+        let x: u64 = kani::any();
+        let a = f(&mut gc, x);
+        let roots = [Object::int(3), a, Object::null()];
+        gc.run(&[&[], &roots]);
+        assert!(gc.objects.len() == 1 && std::ptr::eq(gc.objects[0].as_ptr(), a.as_ptr()));
+        assert!(is_float(a, x));
+        kani::cover!(x == 5);
+        std::mem::forget(gc);
+    }
+
+    /// an unrooted float is released by the collection, once (CBMC's memory model reports a double free)
+    #[kani::proof]
+    #[kani::unwind(5)]
+    fn c04_unrooted_float_released() {
+        let mut gc = GC::new();
+        let a = f(&mut gc, kani::any());
+        let roots = [Object::int(3)];
+        gc.run(&[&roots]);
+        assert!(gc.objects.len() == 0);
+        gc.run(&[&roots]);
+        gc.destroy();
+        assert!(gc.objects.len() == 0);
+        let _ = a;
+        kani::cover!(true);
+        std::mem::forget(gc);
+    }
 }
